@@ -379,6 +379,13 @@ func (c *Check) finish(t *Tables, start time.Time, extra map[string]interface{},
 			fmt.Printf("KNOWN-FINDING: property=%s %s at %s — %s\n", c.Prop, o.Key, o.Pos, o.Reason)
 		}
 	}
+	if sub := os.Getenv("VERIF_SHOW"); sub != "" {
+		for _, o := range c.Obs {
+			if strings.Contains(o.Key, sub) {
+				fmt.Printf("  show %s: %s at %s — %s\n", o.Verdict, o.Key, o.Pos, o.Detail)
+			}
+		}
+	}
 	if os.Getenv("VERIF_VERBOSE") != "" {
 		for _, o := range c.Obs {
 			if o.Verdict == Exception || o.Verdict == Baseline {
